@@ -48,6 +48,26 @@ def observe(codec: Codec, gl, obs_codes) -> dict:
     return out
 
 
+def observe_repr(codec: Codec, gl) -> list:
+    """get_repr() read back into structure: [kind, a, b] per text (see GLRepr in GL.tla).  The texts of the
+    universe are pairwise distinct and none holds ' and ' / ' to ', so the reading is unambiguous; anything
+    unreadable becomes code -1, which no specification state holds."""
+    texts = {str(v): c for c, v in codec.values.items()}
+    # sort() hands numbers back as numpy floats: 1 may read "1.0"
+    texts.update({str(float(v)): c for c, v in codec.values.items() if isinstance(v, (int, float)) and not isinstance(v, bool)})
+    out = []
+    for r in gl.get_repr(char_limit=40):
+        if isinstance(r, str) and ' and ' in r:
+            b, a = r.split(' and ', 1)
+            out.append([2, texts.get(b, -1), texts.get(a, -1)])
+        elif isinstance(r, str) and ' to ' in r:
+            b, a = r.split(' to ', 1)
+            out.append([3, texts.get(b, -1), texts.get(a, -1)])
+        else:
+            out.append([1, codec.enc(r), codec.enc(r)])
+    return out
+
+
 def apply_op(codec: Codec, gl, op: str, args):
     """Perform `op(args)` (abstract arguments) on the real object; returns the object that now
     holds the state (the same object, or the new one for constructors / sort / sort_by / copy)."""
@@ -310,6 +330,10 @@ def random_history(seed: int, length: int, universe: int = 8) -> dict:
             ev['grp'] = [[c, o['group'][c]] for c in obs_codes]
             ev['has'] = o['contains']
             ev['vals'] = o['values']
+            try:
+                ev['rep'] = observe_repr(codec, gl)
+            except Exception:       # outside C13: a conformance remark only
+                ev['rep'] = [[0, -1, -1]]
         except Exception as e:      # observers must not raise on a consistent object
             ev['get'] = [[c, [-2]] for c in obs_codes]
             ev['grp'] = [[c, -2] for c in obs_codes]
